@@ -33,6 +33,7 @@ type c05Case struct {
 	NoLast    string  `json:"no_last"`    // "", QUIT, disconnect: no chunk carries LAST; the transfer is ended this way
 	MarkEmpty bool    `json:"mark_empty"` // the marker after every chunk is an empty line (answered 5xx) instead of NOOP
 	Pad       int     `json:"pad"`        // the chunk sizes are written with this many leading zeros (chunk-size = 1*DIGIT, decimal)
+	FailAfter int     `json:"fail_after"` // > 0: the backend gives the message up after reading this many octets; the rest of the chunk (an LF-free binary run longer than the line limit) arrives in later segments
 	StallAt   int     `json:"stall_at"`   // > 0: ReadTimeout is set and the read deadline is fired after this many payload octets; the peer then carries on
 }
 
@@ -62,7 +63,7 @@ func lfFreeRun(b []byte) int {
 func repeatByte(b byte, n int) []byte { return bytes.Repeat([]byte{b}, n) }
 
 func c05Run(ctx *core.Ctx) {
-	ctx.Rule = "messages from a hostile payload corpus (CRLF.CRLF, command look-alikes, all 256 octet values, LF-free runs of 10/limit-1/limit/limit+1/3*limit) x all compositions of short messages into <=4 chunks incl. zero-size chunks and both LAST placements, seeded chunkings of longer ones x segmentation {command+payload glued, payload in own segment, whole transaction in one segment, seeded cuts} x refused BDATs {no MAIL, every RCPT rejected, bad LAST token, three arguments, over the size limit} carrying bait commands x {SMTP, LMTP}; chunks (accepted, refused, over the limit; LAST or not) overtaken by the read timeout at four payload offsets (ReadTimeout set, virtual deadline fired) with the peer carrying on afterwards. Non-trivial: more than one chunk, or a zero-size chunk, or a refused BDAT; distinct by full case."
+	ctx.Rule = "messages from a hostile payload corpus (CRLF.CRLF, command look-alikes, all 256 octet values, LF-free runs of 10/limit-1/limit/limit+1/3*limit) x all compositions of short messages into <=4 chunks incl. zero-size chunks and both LAST placements, seeded chunkings of longer ones x segmentation {command+payload glued, payload in own segment, whole transaction in one segment, seeded cuts} x refused BDATs {no MAIL, every RCPT rejected, bad LAST token, three arguments, over the size limit} carrying bait commands x {SMTP, LMTP}; chunks the backend gives up on after four octets while an LF-free binary remainder longer than the line limit is still on the wire; chunks (accepted, refused, over the limit; LAST or not) overtaken by the read timeout at four payload offsets (ReadTimeout set, virtual deadline fired) with the peer carrying on afterwards. Non-trivial: more than one chunk, or a zero-size chunk, or a refused BDAT; distinct by full case."
 	ctx.Assumptions = []string{"BDAT with an unparsable size is not judged (octet count unknown)", "known finding C05:linelimit-readahead is matched only when a payload LF-free run shares a segment with its BDAT command line and the symptom is the 500 5.4.0 too-long-line close"}
 	all256 := make([]byte, 256)
 	for i := range all256 {
@@ -228,10 +229,31 @@ func c05Run(ctx *core.Ctx) {
 				}
 			}
 		}
+		// a chunk the backend gives up on early while most of it is still on the wire: the rest is
+		// skipped by octet count, whatever it looks like
+		for _, limit := range []int{0, 64} {
+			for _, last := range []bool{false, true} {
+				for _, mode := range modes {
+					for _, nseg := range []int{1, 3} {
+						n := 3000
+						if limit == 64 {
+							n = 400
+						}
+						pay := append([]byte("GIVEUP"), repeatByte(0xEE, n)...)
+						pay = append(pay, "\r\nMAIL FROM:<bait-1@x.test>\r\n"...)
+						emit(c05Case{Msg: pay, MsgQ: fmt.Sprintf("%.40q...", pay), Chunks: []int{len(pay)}, ExtraLast: last, Mode: mode, LineLimit: limit, FailAfter: 4, Pad: nseg})
+					}
+				}
+			}
+		}
 	}, c05Exec)
 }
 
 func c05Exec(ctx *core.Ctx, c c05Case) {
+	if c.FailAfter > 0 {
+		c05FailedChunk(ctx, c)
+		return
+	}
 	if c.StallAt > 0 {
 		c05Stall(ctx, c)
 		return
@@ -775,5 +797,74 @@ func c05Stall(ctx *core.Ctx, c c05Case) {
 	}
 	if ctx.WantSample("stall/" + c.Refuse) {
 		ctx.Sample("stall/"+c.Refuse, map[string]any{"payload": fmt.Sprintf("%q", c.Msg), "stall_at": c.StallAt, "last": c.ExtraLast, "refuse": c.Refuse, "fired": fired, "replies": codes(tail)})
+	}
+}
+
+// c05FailedChunk: the backend returns an error after a few octets of a chunk whose remainder
+// (binary, no LF for longer than the line limit) is still on its way. The remainder is skipped by
+// octet count: one (negative) reply for the BDAT, then the next command is executed in place.
+func c05FailedChunk(ctx *core.Ctx, c c05Case) {
+	ctx.Eval(fmt.Sprintf("failedchunk|%d|%v|%s|%d|%d", len(c.Msg), c.ExtraLast, c.Mode, c.LineLimit, c.Pad), true)
+	rig := newRig(c.Mode, func(s *smtp.Server) {
+		if c.LineLimit > 0 {
+			s.MaxLineLength = c.LineLimit
+		}
+	})
+	rig.BE.H.Data = func(sess int, r *rec.Reader, st smtp.StatusCollector) error {
+		r.ReadN(c.FailAfter, c.FailAfter)
+		return &smtp.SMTPError{Code: 554, EnhancedCode: smtp.EnhancedCode{5, 6, 0}, Message: "v#giveup"}
+	}
+	p := rig.Dial()
+	p.SendStr(c.Mode.hello() + "\r\nMAIL FROM:<s@x.test>\r\nRCPT TO:<r1@x.test>\r\n")
+	head, err := expect(p, 4)
+	if err != nil {
+		p.Close()
+		rig.Finish()
+		ctx.Inconclusive("C05 failedchunk preamble")
+		return
+	}
+	cmd := fmt.Sprintf("BDAT %d", len(c.Msg))
+	if c.ExtraLast {
+		cmd += " LAST"
+	}
+	p.SendStr(cmd + "\r\n")
+	p.Send(c.Msg[:10])
+	// the backend gives up; the server is now skipping the rest of the chunk
+	p.Raw.WaitPeerIdle(wire.Watchdog)
+	rest := c.Msg[10:]
+	nseg := c.Pad // (number of segments the remainder is sent in)
+	for i := 0; i < nseg; i++ {
+		lo, hi := i*len(rest)/nseg, (i+1)*len(rest)/nseg
+		p.Send(rest[lo:hi])
+		p.Raw.WaitPeerIdle(wire.Watchdog)
+	}
+	p.SendStr("NOOP\r\nQUIT\r\n")
+	p.Raw.CloseWrite()
+	tail, rerr := p.ReadAll()
+	p.Close()
+	fin := rig.Finish()
+	ends := waitDataEnds(rig.Log)
+	if isWatchdog(rerr) || !fin || !ends {
+		ctx.Inconclusive("C05 failedchunk watchdog")
+		return
+	}
+	ev := rig.Log.Events()
+	ctx.Add("backend_events", countBackendEvents(ev))
+	ctx.Add("replies_parsed", int64(len(head)+len(tail)))
+	fail := func(sig, msg string) {
+		ctx.Violate(sig, msg+fmt.Sprintf(" [chunk=%d octets last=%v mode=%s linelimit=%d segments=%d]", len(c.Msg), c.ExtraLast, c.Mode, c.LineLimit, nseg), c, witness(rig.Log, append(head, tail...)))
+	}
+	for _, e := range ev {
+		if e.Ph == "b" && (e.Kind == "Mail" || e.Kind == "Rcpt") && strings.HasPrefix(e.A, "bait") {
+			fail("C05:payload-executed:failed-chunk", fmt.Sprintf("the rest of a chunk the backend had given up on was executed as a command: %s(%q)", e.Kind, e.A))
+			return
+		}
+	}
+	if len(tail) != 3 || tail[0].Class() == 2 || tail[1].Code != 250 || tail[2].Code != 221 {
+		fail("C05:replies:failed-chunk", fmt.Sprintf("expected one negative reply for the BDAT, then 250 (NOOP) and 221 (QUIT); got %s (read ended: %v)", codes(tail), rerr))
+		return
+	}
+	if ctx.WantSample("failedchunk") {
+		ctx.Sample("failedchunk", map[string]any{"chunk_octets": len(c.Msg), "last": c.ExtraLast, "mode": c.Mode, "line_limit": c.LineLimit, "replies": codes(tail)})
 	}
 }
